@@ -1,5 +1,5 @@
 // Replay for property C11, harness server::pubd::rrdp::verif_kani::c11k_retained_never_exceeds_maximum
-// Failing checks: assertion failed: keep + 1 <= cfg.rrdp_delta_files_max_nr @ server::pubd::rrdp::verif_kani::c11k_retained_never_exceeds_maximum (/verif/harness/server_pubd_rrdp.rs:177)
+// Failing checks: assertion failed: keep + 1 <= cfg.rrdp_delta_files_max_nr @ server::pubd::rrdp::verif_kani::c11k_retained_never_exceeds_maximum (/verif/harness/server_pubd_rrdp.rs:220)
 // Reproduce: /verif/bin/vk replay /verif/replays/C11-c11k_retained_never_exceeds_maximum.rs
 // (places this file as the `playback` test module of the harness module and runs
 //  `cargo kani playback -Z concrete-playback` in /repo: the real code, compiled natively.)
@@ -7,24 +7,24 @@
 use super::*;
 /// assertion: assertion failed: keep + 1 <= cfg.rrdp_delta_files_max_nr
 #[test]
-fn kani_concrete_playback_c11k_retained_never_exceeds_maximum_9628070501113111147() {
+fn kani_concrete_playback_c11k_retained_never_exceeds_maximum_6898843051735360846() {
     let concrete_vals: Vec<Vec<u8>> = vec![
-        // 595968
-        vec![0, 24, 9, 0],
-        // 12288
-        vec![0, 48, 0, 0],
-        // 12288
-        vec![0, 48, 0, 0],
-        // 106240
-        vec![0, 159, 1, 0],
-        // 0ul
-        vec![0, 0, 0, 0, 0, 0, 0, 0],
+        // 1015936
+        vec![128, 128, 15, 0],
+        // 16384
+        vec![0, 64, 0, 0],
+        // 22528
+        vec![0, 88, 0, 0],
+        // 130048
+        vec![0, 252, 1, 0],
+        // 1ul
+        vec![1, 0, 0, 0, 0, 0, 0, 0],
         // 2ul
         vec![2, 0, 0, 0, 0, 0, 0, 0],
-        // 18176
-        vec![0, 71],
-        // 65473
-        vec![193, 255],
+        // 32768
+        vec![0, 128],
+        // 0
+        vec![0, 0],
     ];
     kani::concrete_playback_run(concrete_vals, c11k_retained_never_exceeds_maximum);
 }
